@@ -8,6 +8,8 @@
 (*   {"a":"reset","trace":k}                                                                                    *)
 (*   {"a":"call","t":thread,"op":"M"|"E"|"D"|"C"|"R","k":id,"last":bool,"mark":n}   (R: the caller polls the request  *)
 (*                                                    its k-th call was given; ret ok with rid = the frame's mark)  *)
+(*   {"a":"call","t":thread,"op":"X","owner":u,"k":c}   a timer goroutine of the request that call c of thread u was   *)
+(*                                                    given goes on after its deadline (ret ok: there was one)     *)
 (*   {"a":"ret","t":thread,"ok":bool,"rid":id}                                                                   *)
 (*   {"a":"obs","closed":bool,"free":[ids],"reqs":[{"t":thread,"c":call number,"id","managed","done","failed",   *)
 (*                                                     "frames":[marks]}]}       (last line of a trace)          *)
@@ -61,8 +63,12 @@ DropUnregister(t) ==
        /\ th' = [th EXCEPT ![t] = [st |-> "limbo", e |-> th[t].e, acc |-> FALSE, tag |-> reg[id]]]
     /\ anframe' = anframe + 1
     /\ UNCHANGED <<rq, aclosed, l, cur, ncall, tagOf>>
+\* The same two steps occur when the request's timeout fires between them (operation "X"): the timer goroutine has
+\* seen its deadline pass, the final response is received and the id given back - a new request may carry it at once -
+\* and the timer then fails the request before the frame is handed over. The response met the timeout: either outcome
+\* satisfies C10 / C16, provided the request is completed by it.
 DropFail(t) ==
-    /\ th[t].st = "limbo" /\ (CloseInProgress \/ aclosed)
+    /\ th[t].st = "limbo" /\ (CloseInProgress \/ aclosed \/ rq[th[t].tag].done)
     /\ rq' = [rq EXCEPT ![th[t].tag] = IF @.done THEN @ ELSE [@ EXCEPT !.done = TRUE, !.failed = TRUE, !.silence = 0]]
     /\ th' = [th EXCEPT ![t].st = "lin"]
     /\ UNCHANGED <<pool, reg, aclosed, anframe, l, cur, ncall, tagOf>>
@@ -83,7 +89,12 @@ Lin(t) ==
             [] e.op = "D" -> e.k \in AllIds /\ ADeliverM(e.k, e.last, e.mark)
             [] e.op = "C" -> AClose
             [] e.op = "R" -> UNCHANGED avars      \* takes effect at its return, where the result is known
-       /\ th' = [th EXCEPT ![t] = [st |-> "lin", e |-> e, acc |-> Len(rq') = Len(rq) + 1, tag |-> Len(rq')]]
+            \* C16: a timeout fails a request that is still open (and leaves it registered), and does nothing else
+            [] e.op = "X" -> \/ UNCHANGED avars
+                             \/ /\ <<e.owner, e.k>> \in DOMAIN tagOf /\ ~rq[tagOf[<<e.owner, e.k>>]].done
+                                /\ rq' = [rq EXCEPT ![tagOf[<<e.owner, e.k>>]] = [@ EXCEPT !.done = TRUE, !.failed = TRUE, !.silence = 0]]
+                                /\ UNCHANGED <<pool, reg, aclosed, anframe>>
+       /\ th' = [th EXCEPT ![t] = [st |-> "lin", e |-> e, acc |-> IF e.op = "X" THEN rq' # rq ELSE Len(rq') = Len(rq) + 1, tag |-> Len(rq')]]
     /\ UNCHANGED <<l, cur, ncall, tagOf>>
 
 \* the recorded result agrees with the effect: a send returns a request iff it was accepted, and the request's id is
@@ -93,6 +104,7 @@ Ret == /\ l <= Len(Trace) /\ Trace[l].a = "ret"
        /\ LET e == Trace[l]
               c == th[e.t] IN
           /\ c.st = "lin"
+          /\ c.e.op = "X" => (c.acc => e.ok)       \* no timer goroutine went on: nothing timed out
           /\ c.e.op \in {"M", "E"} => /\ e.ok <=> c.acc
                                       /\ e.ok => rq[c.tag].id = e.rid
           /\ tagOf' = IF c.e.op \in {"M", "E"} /\ e.ok THEN tagOf @@ (<<e.t, ncall[e.t]>> :> c.tag) ELSE tagOf
